@@ -81,10 +81,12 @@ structure Cfg where
   mmrActive : Bool := true
   extMax : Nat := CkbVerif.Gen.Rules.EXTENSION_MAX_BYTES
   extMinRoot : Nat := CkbVerif.Gen.Rules.EXTENSION_MIN_ROOT_BYTES
-  /-- `chain_service.rs` after the repair of F13/F14: a hash whose stored ext says
-  `verified = Some(true)` is answered `Ok(false)` before anything else (no non-contextual check of
-  the accompanying body, no `insert_block`, no status change). `false` = the pipeline as it was. -/
-  redeliveryGuard : Bool := true
+  /-- hardening variant, NOT in /repo: answer `Ok(false)` for a hash whose stored ext says
+  `verified = Some(true)` before anything else. `false` (the default) = `chain_service.rs` as it is:
+  the body that accompanies an attached hash is run through the non-contextual stage again. Only
+  in-process callers can hand over two bodies under one header hash (every RPC / P2P entry point
+  builds its `BlockView` with `into_view()`, which re-derives the header's roots from the body). -/
+  redeliveryGuard : Bool := false
 deriving Repr
 
 /-- `finalization_delay_length` = farthest + 1 -/
@@ -428,8 +430,9 @@ deriving DecidableEq, Repr
 
 /-- one block through `HeaderVerifier` and then the chain service (`blocking_process_block`).
 Stored blocks are immutable in the model (`st'` keeps the first body stored under an id); the code
-before the repair overwrote the body rows of a re-delivered hash (F13) — that part of the old
-behaviour is not modelled, the marking of F14 is (`redeliveryGuard := false`). -/
+overwrites the body rows of a re-delivered hash (`insert_block`), which only matters when an
+in-process caller delivers a second body under the same header hash — outside the property's
+quantifier and not modelled; the `BLOCK_INVALID` marking in that situation is. -/
 def submit (cfg : Cfg) (s : St) (now : Nat) (b : Blk) : St × Res :=
   match headerCheck cfg (headerCxOf cfg s.stored now b) b with
   | some e => (s, .rejected e)
